@@ -31,9 +31,9 @@ PROP = dict(
             job("routing", "^TestVerifC19RequestRoute$", ["TestVerifC19RequestRoute"], 1500, shards=2),
         ],
         thorough=[
-            job("routing", "^TestVerifC19FindPath$", ["TestVerifC19FindPath"], 40000, shards=12,
+            job("routing", "^TestVerifC19FindPath$", ["TestVerifC19FindPath"], 30000, shards=12,
                 timeout=3000, env=dict(VERIF_C19_REPEATS=3, VERIF_C19_ONION_EVERY=4)),
-            job("routing", "^TestVerifC19RequestRoute$", ["TestVerifC19RequestRoute"], 30000, shards=4,
+            job("routing", "^TestVerifC19RequestRoute$", ["TestVerifC19RequestRoute"], 24000, shards=4,
                 timeout=3000),
         ],
     ),
